@@ -21,33 +21,52 @@ theorem predOfRules_mem {rules : List CRule} {k : Nat} {x : NT} {rhs : List ESym
     | mk a b => simp only at hx he; rw [hx, he]
   rw [← this]; exact hf.1
 
-theorem scanImpl_mono (inp : Input) (t : Term) (k e : Nat) (l : Leaf) (h : scanImpl inp t k = some (e, l)) :
-    k ≤ e := by
-  unfold scanImpl at h
+theorem scanV_mono (v : Variant) (inp : Input) (t : Term) (k e : Nat) (l : Leaf)
+    (h : scanV v inp t k = some (e, l)) : k ≤ e := by
+  unfold scanV at h
   split at h <;> dsimp only at h
+  · split at h
+    · cases h
+    · split at h
+      · cases h
+      · split at h
+        · simp only [Option.some.injEq, Prod.mk.injEq] at h; omega
+        · cases h
   · split at h
     · cases h
     · split at h
       · simp only [Option.some.injEq, Prod.mk.injEq] at h; omega
       · cases h
   · split at h
-    · simp only [Option.some.injEq, Prod.mk.injEq] at h; omega
     · cases h
+    · split at h
+      · simp only [Option.some.injEq, Prod.mk.injEq] at h; omega
+      · cases h
   · split at h
-    · simp only [Option.some.injEq, Prod.mk.injEq] at h; omega
     · cases h
-  · split at h
-    · cases h
-    · cases h
-    · simp only [Option.some.injEq, Prod.mk.injEq] at h; omega
+    · split at h
+      · cases h
+      · split at h
+        · cases h
+        · simp only [Option.some.injEq, Prod.mk.injEq] at h; omega
 
-/-- the machine for a compiled rule table and a concrete input, prediction in table order -/
-def cfgOf (rules : List CRule) (inp : Input) (start : String) (p : Policy) : Cfg :=
-  { rules := rules, pred := predOfRules rules, scan := scanImpl inp, ncols := inp.ncols, policy := p, start := start }
+theorem scanImpl_mono (inp : Input) (t : Term) (k e : Nat) (l : Leaf) (h : scanImpl inp t k = some (e, l)) :
+    k ≤ e := scanV_mono Variant.now inp t k e l h
 
-theorem sane_cfgOf (rules : List CRule) (inp : Input) (start : String) (p : Policy) :
-    Sane (cfgOf rules inp start p) :=
-  ⟨fun k x rhs h => predOfRules_mem (rules := rules) (k := k) (x := x) h, fun t k e l h => scanImpl_mono inp t k e l h⟩
+/-- the machine for a compiled rule table, a variant of the code and a concrete input, prediction in table
+    order (`v.cap` is not used: the table is given) -/
+def cfgOf (rules : List CRule) (v : Variant) (inp : Input) (start : String) : Cfg :=
+  { rules := rules, pred := predOfRules rules, scan := scanV v inp, ncols := inp.ncols, policy := v.policy,
+    start := start, predDone := v.predDone }
+
+theorem sane_cfgOf (rules : List CRule) (v : Variant) (inp : Input) (start : String) :
+    Sane (cfgOf rules v inp start) :=
+  ⟨fun k x rhs h => predOfRules_mem (rules := rules) (k := k) (x := x) h, fun t k e l h => scanV_mono v inp t k e l h⟩
+
+/-- `mkCfg` with any prediction order that only offers alternatives of the table is sane -/
+theorem sane_mkCfg (G : Grammar) (v : Variant) (inp : Input) (start : String) (pred : Nat → NT → List (List ESym))
+    (hpred : ∀ k x rhs, rhs ∈ pred k x → (x, rhs) ∈ compile G v.cap) : Sane (mkCfg G v inp start pred) :=
+  ⟨hpred, fun t k e l h => scanV_mono v inp t k e l h⟩
 
 theorem colAt_replicate (n j : Nat) : colAt (List.replicate n ({} : Col)) j = {} := by
   by_cases h : j < n
@@ -75,6 +94,8 @@ theorem wf_init {c : Cfg} (hp : c.policy = .core) : Wf c (M.init c) where
     rw [hp]
     exact wfc_addAt (s := { item := startItem c.start, kids := [] }) (wfc_replicate c) (Nat.le_refl 0) (start_ok c)
   frameOk := by intro t i h; unfold M.init at h; cases h
+  pendOk := by intro t h; unfold M.init at h; cases h
+  pendLen := by unfold M.init; simp
 
 /-- a run that is given more fuel than the measure of its state does not run out of fuel -/
 theorem run_core_finishes {c : Cfg} (hs : Sane c) (hp : c.policy = .core) :
